@@ -376,9 +376,9 @@ func TestC26Cluster(t *testing.T) {
 		runProgram(cc.Cluster, tm, cc.StrProf, &cc)
 		return
 	}
-	profs := []string{"ascii", "esc", "bmp", "astral", "mixed", "pct"}
+	profs := []string{"ascii", "esc", "bmp", "astral", "mixed", "pct", "qbs1", "qbs2", "qbs3", "qbs4"}
 	if !behav.Thorough() {
-		profs = []string{"ascii", []string{"esc", "bmp", "astral", "mixed"}[int(behav.Seed()%4+4)%4], "mixed", "pct"}
+		profs = []string{"ascii", []string{"esc", "bmp", "astral", "mixed"}[int(behav.Seed()%4+4)%4], "pct", "qbs1"}
 	}
 	for _, p := range uniq(profs) {
 		runProgram("A", clusterATemplates, p, nil)
